@@ -97,6 +97,45 @@ mod kani_icmp {
         if pk >= removed && pk < old.count { assert!(new.hdr == old.hdr && new.size == old.size && (pj >= old.size || new.byte == old.byte), "C09.icmp.recv: remaining datagrams unchanged, in order"); }
     }
 
+    /// process_v4 (ingress): an accepted echo message is queued exactly once, last, whole (type, ident, sequence number and data byte
+    /// for byte) with its IP source address as metadata, or - when it does not fit - nothing changes; queued datagrams keep their
+    /// source, size, bytes and order. accepts_v4: a socket bound to an identifier accepts only echo messages carrying it (C11).
+    #[kani::proof] #[kani::unwind(14)]
+    fn c09_icmp_process() {
+        bufs!(rm, rp, tm, tp);
+        let mut s = any_socket(&mut rm, &mut rp, &mut tm, &mut tp);
+        let (pk, pj) = ghost();
+        let old = s.rx_buffer.kani_view(MCAP, pk, pj);
+        let mut cx = Context::kani_ctx(Instant::from_millis(0), 1500, kani::any(), true);
+        let pay: [u8; 5] = kani::any();
+        let n: usize = kani::any();
+        kani::assume(n <= 5); // tag: range
+        let (src, dst) = (Ipv4Address::from_bits(kani::any()), Ipv4Address::from_bits(kani::any()));
+        let ip = Ipv4Repr { src_addr: src, dst_addr: dst, next_header: IpProtocol::Icmp, payload_len: 8 + n, hop_limit: 64 };
+        let (ident, seq_no, is_req): (u16, u16, bool) = (kani::any(), kani::any(), kani::any());
+        let repr = if is_req { Icmpv4Repr::EchoRequest { ident, seq_no, data: &pay[..n] } } else { Icmpv4Repr::EchoReply { ident, seq_no, data: &pay[..n] } };
+        kani::assume(s.accepts_v4(&mut cx, &ip, &repr)); // tag: pre
+        match s.endpoint {
+            Endpoint::Ident(b) => assert!(b == ident, "C11.icmp.accepts: an echo message is accepted only with the bound identifier"),
+            _ => assert!(false, "C11.icmp.accepts: an echo message is accepted only by a socket bound to an identifier"),
+        }
+        s.process_v4(&mut cx, &ip, &repr);
+        let new = s.rx_buffer.kani_view(MCAP, pk, pj);
+        kani::cover!(new.count == old.count + 1 && old.count > 0, "delivery behind a queued datagram reachable");
+        kani::cover!(new.count == old.count, "refusal (no room) reachable");
+        assert!(s.rx_buffer.kani_inv(MCAP), "C09.icmp.process: buffer invariant preserved");
+        assert!(new.count == old.count || new.count == old.count + 1, "C09.icmp.process: delivered at most once");
+        if pk < old.count { assert!(new.hdr == old.hdr && new.size == old.size && (pj >= old.size || new.byte == old.byte), "C09.icmp.process: queued datagrams unchanged, in order"); }
+        if new.count == old.count + 1 && pk == old.count {
+            assert!(new.size == 8 + n && new.hdr == Some(IpAddress::Ipv4(src)), "C09.icmp.process: the message is delivered whole with its source address");
+            if pj >= 8 && pj < 8 + n { assert!(new.byte == pay[pj - 8], "C09.icmp.process: data bytes unmodified"); }
+            if pj == 0 { assert!(new.byte == if is_req { 8 } else { 0 }, "C09.icmp.process: message type as received"); }
+            if pj == 1 { assert!(new.byte == 0, "C09.icmp.process: message code as received"); }
+            if pj == 4 || pj == 5 { assert!(new.byte == ident.to_be_bytes()[pj - 4], "C09.icmp.process: identifier as received"); }
+            if pj == 6 || pj == 7 { assert!(new.byte == seq_no.to_be_bytes()[pj - 6], "C09.icmp.process: sequence number as received"); }
+        }
+    }
+
     /// dispatch: at most one datagram per call, the head, addressed as the application asked; it is dequeued iff it was handed over
     /// (or cannot be sent at all: no source address / not an ICMP message), and stays queued when the lower layer refuses it
     #[kani::proof] #[kani::unwind(14)]
